@@ -27,6 +27,8 @@ from mc import core, net
 SERVER_ADDR = ("127.0.0.1", 8080)
 FAKE_SERVER = ("127.0.0.1", 8081)
 REPL = [0x00, 0x0A, 0x0D, 0x3A, 0x20, 0x67, 0xFF]
+if core.TIER == "thorough":     # wider replacement alphabet: TAB % 0 - ; = " 0x80 [ ] / ? @
+    REPL += [0x09, 0x25, 0x30, 0x2D, 0x3B, 0x3D, 0x22, 0x80, 0x5B, 0x5D, 0x2F, 0x3F, 0x40]
 KINDS = ["del", "dup"] + ["rep%02x" % b for b in REPL] + ["trunc", "trunc+close"]
 
 REQ_SEEDS = [
@@ -79,7 +81,7 @@ def faults(seed, kind):
 def innermost(ex):
     fn = "?"
     for fr in traceback.extract_tb(ex.__traceback__):
-        if "/ioflo/" in fr.filename:
+        if "/ioflo/aio/" in fr.filename:
             fn = fr.name
     return fn
 
